@@ -127,7 +127,8 @@ let parse_act universe a =
   | 'P' -> APw (pw_of_list (parse_pw (tail a)))
   | 'M' -> AMtime (if a = "M!" then None else Some (z_of_int (int_of_string (tail a))))
   | 'S' -> ASighup
-  | 'c' | 't' -> AClock (z_of_int (int_of_string (tail a)))
+  | 't' -> AClock (z_of_int (int_of_string (tail a)))
+  | 'c' -> AAdvance (z_of_int (int_of_string (tail a)))
   | 'A' -> ALookups universe
   | _ -> failwith ("act " ^ a)
 
@@ -159,6 +160,8 @@ let run_pair line =
              | EFire (id, now) -> emit (Printf.sprintf "f%d@%d" (int_of_z id) (int_of_z now))
              | EReturn (sc, at) -> emit (Printf.sprintf "r%d%d" (if sc then 1 else 0) (if at then 1 else 0))
              | EMark c -> emit (match int_of_nat c with 0 -> "hT" | 1 -> "hG" | _ -> "hE")
+             | EUpdated -> emit "u"
+             | EOpen -> emit "o"
              | EStuck -> emit "!stuck"
              | EAns _ -> ()) in
       let hooks : (int * hook) list ref = ref [] in
@@ -183,7 +186,7 @@ let run_pair line =
                              h_sched = (if f = "" then [] else parse_sched f) } in
                    hooks := (int_of_nat !nref + int_of_string j, h) :: !hooks
                | _ -> emit ("?" ^ op))
-          | 't' | 'S' | 'A' -> active (parse_act universe op)
+          | 't' | 'c' | 'S' | 'A' -> active (parse_act universe op)
           | _ -> emit ("?" ^ op))
         ops;
       (match gt_destroy !st with
